@@ -75,6 +75,10 @@ def outcome_classes(transport):
     return common
 
 
+FAILING = ("exhausted", "garbage_then_silence", "fragment_then_silence", "exhausted_by_late_answers", "exhausted_by_double_garbage",
+           "connect_refused_all", "connect_unreachable_all", "open_dns_failure_all", "send_error", "recv_error")
+
+
 def build_steps(transport, prefix, gap, probe, R=2):
     steps = []
     classes = outcome_classes(transport)
@@ -215,8 +219,13 @@ def enum_job(job):
                 case = {"transport": transport, "keep": keep, "T": T, "R": R, "prefix": list(prefix), "gap": gap,
                         "k": k, "latency": 0}
                 _apply(acc, case)
-                if n < 2:
-                    _apply(acc, dict(case, api=True))   # the same history through an inverter object
+                if n < 2 or all(p in FAILING for p in prefix):
+                    _apply(acc, dict(case, api=True))   # the same history through an inverter object (all failure streaks of length 2)
+    for streak in (3, 4, 6):      # longer streaks of completely failed requests through an inverter object, then the probe
+        for name in ("exhausted", "garbage_then_silence"):
+            if name in names:
+                for k in (None, R, "slow:9"):
+                    _apply(acc, {"transport": transport, "keep": keep, "T": T, "R": R, "prefix": [name] * streak, "gap": gap, "k": k, "latency": 0, "api": True})
                 if n == 2 and len(acc.samples) < 1 and prefix[0] == "exhausted":
                     acc.sample(case)
     return acc
